@@ -10,6 +10,18 @@ CHECKS = {
    tech='symbolic execution of the crate MIR (path-based, z3) over all byte strings up to a bound and grammar skeletons with symbolic holes; every path replayed natively',
    text='Bounded symbolic model checking of the real Zinc reader (Parser::make + parse_value as compiled to MIR): for every byte string of length <= 3 (quick) / 4 (thorough) and for 37 grammar skeletons with 2-3 fully symbolic bytes at the interesting position, plus non-EOF reader faults at every offset of three documents, z3 decides every branch; no explored path may panic, exceed the step bound (non-termination) or the call-depth bound. One solver model per path is replayed against the natively built crate and must give the same value / error / panic.',
    note='Bounds: inputs <= 4 fully symbolic bytes, skeleton holes <= 3 bytes, 40000 MIR steps and call depth 60 per path. Trusted: rustc nightly MIR printer, the mirsym interpreter and its std/chrono models (validated per path against the native build), z3. Outside: longer inputs, unbounded nesting depth (stack exhaustion at depth ~10^4 is not decided), Hayson totality (serde_json text layer), IANA zone rules (offset of named zones is an arbitrary value).'),
+ 'C09': dict(engine=M, cat='model_checking', design='7 (C09), 4',
+   tech='symbolic execution of the crate MIR (path-based, z3) of Filter::try_from over all ASCII strings up to a bound and filter skeletons with symbolic holes; every path replayed natively (outcome and parse tree)',
+   text='Bounded symbolic model checking of the real filter lexer/parser: every ASCII string of length <= 3 (quick) / 4 (thorough) and 29 filter skeletons (operators without operands, unbalanced/nested parentheses, paths, relations, every literal opener) with 2-3 symbolic bytes; no explored path may panic, exceed the step bound or the call-depth bound; one model per path is replayed natively and must give the same outcome and the same tree.',
+   note='Bounds as stated; symbolic bytes are ASCII (the entry takes &str), non-ASCII only in concrete skeleton parts. Evaluation termination with cyclic resolvers is not part of this check yet. Parenthesis depth beyond the call-depth bound (stack exhaustion at ~10^4) is not decided.'),
+ 'C01': dict(engine=M, cat='model_checking', design='7 (C01), 4',
+   tech='two-stage symbolic execution of the crate MIR: to_zinc of a value with symbolic leaves, then Parser::parse_value over exactly those (symbolic) bytes; z3 decides whether decoded != original; witnesses replayed natively',
+   text='For a catalogue of ~85 well-formed value shapes (every scalar kind, lists/dicts/grids nested in each other, grid meta, column meta, Null/missing cells, zero rows) whose leaves are symbolic - strings of <= 2 (quick) / 3 (thorough) arbitrary Unicode scalar values, short decimals, calendar fields - the encoder and then the decoder are executed symbolically from MIR and the solver is asked for a leaf assignment for which decoding fails or yields a different value. Every reported witness is re-run natively (zinc_roundtrip) and must fail there too.',
+   note='Bounds: strings <= 3 code points, collections <= 2 entries, nesting <= 2, decimals <= 3 digits plus listed special floats (NaN, INF, -0, 1e21, 5e-324, f64::MAX, 2^53+1); zones UTC and Etc/GMT±N only (IANA rules outside the model); Uri values containing a backslash and the XStr type C are outside the oracle (specification ambiguity, DESIGN.md 4.5). std float printing/parsing trusted.'),
+ 'C10': dict(engine=M, cat='model_checking', design='7 (C10), 4',
+   tech='symbolic execution of the crate MIR of the Zinc writer over well-formed and ill-formed value shapes with symbolic leaves; a feasible panic path is a violation; witnesses replayed natively',
+   text='The Zinc writer (ToZinc for every kind) is executed symbolically over the C01 catalogue plus ill-formed shapes (arbitrary Unicode in Ref/Symbol/XStr type/column names, empty strings, NaN/INF with units, grids with zero columns, rows whose keys are not columns); no feasible path may end in a panic (slice, index, unwrap, overflow). One model per path is replayed natively.',
+   note='Bounds as C01. Display/Hayson encoders are not part of this check yet. Unicode case mapping of a symbolic non-ASCII char is fixed to the solver\'s choice on that path (stated sampling step inside an otherwise symbolic path).'),
 }
 NA = {
  'C14': 'quantifies over thread interleavings on dashmap\'s sharded locks: Kani has no thread model, mirsym is sequential and dashmap is outside the MIR dump; no solver-based engine on this image reaches it (DESIGN.md section 8)',
